@@ -164,5 +164,14 @@ func (g *Gen) runMxLoop(nops int) {
 		}
 		g.mxBlock()
 	}
+	g.do("world mx:presettle")
+	for i := 0; i < nc; i++ {
+		g.mxRun("valsets", i)
+		g.mxRun("batches", i)
+	}
+	for i := 0; i < nc; i++ {
+		g.mxRun("events", i)
+	}
+	g.mxBlock()
 	g.do("world mx:settle")
 }
